@@ -234,4 +234,169 @@ theorem eval_inlineM (fns : List (String × String)) (env : Env) :
   | (k, x) :: rest => by simp [inlineEM, evalM, eval_inline fns env x, eval_inlineM fns env rest]
 end
 
+/-! ### the conversion to the types of the HCL structs is idempotent
+
+what `gohcl.DecodeBody` stores is in converted form: converting it again changes nothing -/
+
+theorem strsConv_idem : ∀ (xs : List V) (ss : List String), strsConv xs = some ss → strsConv (ss.map V.str) = some ss
+  | [], ss, h => by simp [strsConv] at h; subst h; simp [strsConv]
+  | x :: r, ss, h => by
+    simp only [strsConv] at h
+    cases hx : primStr x with
+    | none => simp [hx] at h
+    | some s =>
+      simp only [hx, Option.bind_some] at h
+      cases hr : strsConv r with
+      | none => simp [hr] at h
+      | some rs =>
+        simp only [hr, Option.map_some, Option.some.injEq] at h
+        subst h
+        simp [strsConv, primStr, strsConv_idem r rs hr]
+
+theorem mapStrVals_idem : ∀ (kvs kvs' : List (String × V)), mapStrVals kvs = some kvs' → mapStrVals kvs' = some kvs'
+  | [], kvs', h => by simp [mapStrVals] at h; subst h; simp [mapStrVals]
+  | (k, x) :: rest, kvs', h => by
+    simp only [mapStrVals] at h
+    cases hx : primStr x with
+    | none => simp [hx] at h
+    | some s =>
+      simp only [hx, Option.bind_some] at h
+      cases hr : mapStrVals rest with
+      | none => simp [hr] at h
+      | some rs =>
+        simp only [hr, Option.map_some, Option.some.injEq] at h
+        subst h
+        simp [mapStrVals, primStr, mapStrVals_idem rest rs hr]
+
+theorem coerceLeaf_idem (l : C16Leaf) (v w : V) (h : coerceLeaf l v = some w) : coerceLeaf l w = some w := by
+  cases l <;> cases v <;> simp [coerceLeaf, primStr] at h <;> (try subst h) <;> (try simp [coerceLeaf, primStr])
+  · obtain ⟨a, ha, hw⟩ := h
+    subst hw
+    simp [strsConv_idem _ _ ha]
+  · obtain ⟨a, ha, hw⟩ := h
+    subst hw
+    simp [mapStrVals_idem _ _ ha]
+
+/-- a leaf conversion keeps null null and makes nothing null -/
+theorem coerceLeaf_null (l : C16Leaf) (v w : V) (h : coerceLeaf l v = some w) : isNullV w = isNullV v := by
+  cases l <;> cases v <;> simp [coerceLeaf, primStr] at h <;> (try subst h) <;> (try simp [isNullV])
+  all_goals (obtain ⟨a, _, hw⟩ := h; subst hw; simp)
+
+theorem coerceV_leaf (T : Tables) (l : C16Leaf) (v : V) : coerceV T (.leaf l) v = coerceLeaf l v := by
+  cases v <;> simp [coerceV]
+  cases l <;> simp [coerceLeaf]
+
+
+theorem written_cons (p : String × V) (fs : List (String × V)) (k : String) :
+    written (p :: fs) k = ((p.1 == k && !isNullV p.2) || written fs k) := by
+  simp [written]
+
+mutual
+theorem coerceV_idem (T : Tables) :
+    ∀ (v : V) (ty : C16HTy) (w : V), coerceV T ty v = some w → coerceV T ty w = some w ∧ isNullV w = isNullV v
+  | .null, ty, w, h => by
+    cases ty <;> simp [coerceV] at h <;> subst h <;> simp [coerceV]
+  | .str x, ty, w, h => by
+    cases ty with
+    | leaf l =>
+      rw [coerceV_leaf] at h
+      exact ⟨by rw [coerceV_leaf]; exact coerceLeaf_idem l _ w h, coerceLeaf_null l _ w h⟩
+    | struct s => simp [coerceV] at h
+    | structList s => simp [coerceV] at h
+  | .int x, ty, w, h => by
+    cases ty with
+    | leaf l =>
+      rw [coerceV_leaf] at h
+      exact ⟨by rw [coerceV_leaf]; exact coerceLeaf_idem l _ w h, coerceLeaf_null l _ w h⟩
+    | struct s => simp [coerceV] at h
+    | structList s => simp [coerceV] at h
+  | .bool x, ty, w, h => by
+    cases ty with
+    | leaf l =>
+      rw [coerceV_leaf] at h
+      exact ⟨by rw [coerceV_leaf]; exact coerceLeaf_idem l _ w h, coerceLeaf_null l _ w h⟩
+    | struct s => simp [coerceV] at h
+    | structList s => simp [coerceV] at h
+  | .seq xs, ty, w, h => by
+    cases ty with
+    | leaf l =>
+      rw [coerceV_leaf] at h
+      exact ⟨by rw [coerceV_leaf]; exact coerceLeaf_idem l _ w h, coerceLeaf_null l _ w h⟩
+    | struct s => simp [coerceV] at h
+    | structList s =>
+      simp only [coerceV] at h
+      cases hx : coerceXs T s xs with
+      | none => simp [hx] at h
+      | some xs' =>
+        simp only [hx, Option.map_some, Option.some.injEq] at h
+        subst h
+        simp [coerceV, coerceXs_idem T s xs xs' hx, isNullV]
+  | .map fs, ty, w, h => by
+    cases ty with
+    | leaf l =>
+      rw [coerceV_leaf] at h
+      exact ⟨by rw [coerceV_leaf]; exact coerceLeaf_idem l _ w h, coerceLeaf_null l _ w h⟩
+    | structList s => simp [coerceV] at h
+    | struct s =>
+      simp only [coerceV] at h
+      by_cases hr : requiredOK T s fs = true
+      · rw [if_pos hr] at h
+        cases hx : coerceFs T s fs with
+        | none => simp [hx] at h
+        | some fs' =>
+          simp only [hx, Option.map_some, Option.some.injEq] at h
+          subst h
+          obtain ⟨h1, h2⟩ := coerceFs_idem T s fs fs' hx
+          have hr' : requiredOK T s fs' = true := by
+            unfold requiredOK at hr ⊢
+            simpa [h2] using hr
+          simp [coerceV, hr', h1, isNullV]
+      · rw [if_neg hr] at h
+        cases h
+theorem coerceFs_idem (T : Tables) (s : String) :
+    ∀ (fs fs' : List (String × V)), coerceFs T s fs = some fs' →
+      coerceFs T s fs' = some fs' ∧ ∀ k, written fs' k = written fs k
+  | [], fs', h => by
+    simp [coerceFs] at h
+    subst h
+    simp [coerceFs]
+  | (k, x) :: rest, fs', h => by
+    simp only [coerceFs] at h
+    cases hf : findH T s k with
+    | none => simp [hf] at h
+    | some f =>
+      simp only [hf] at h
+      cases hx : coerceV T f.ty x with
+      | none => simp [hx] at h
+      | some y =>
+        cases hr : coerceFs T s rest with
+        | none => simp [hx, hr] at h
+        | some ys =>
+          simp only [hx, hr, Option.some.injEq] at h
+          subst h
+          obtain ⟨hy1, hy2⟩ := coerceV_idem T x f.ty y hx
+          obtain ⟨hr1, hr2⟩ := coerceFs_idem T s rest ys hr
+          refine ⟨by simp [coerceFs, hf, hy1, hr1], ?_⟩
+          intro k'
+          rw [written_cons, written_cons, hr2 k', hy2]
+theorem coerceXs_idem (T : Tables) (s : String) :
+    ∀ (xs xs' : List V), coerceXs T s xs = some xs' → coerceXs T s xs' = some xs'
+  | [], xs', h => by
+    simp [coerceXs] at h
+    subst h
+    simp [coerceXs]
+  | x :: rest, xs', h => by
+    simp only [coerceXs] at h
+    cases hx : coerceV T (.struct s) x with
+    | none => simp [hx] at h
+    | some y =>
+      cases hr : coerceXs T s rest with
+      | none => simp [hx, hr] at h
+      | some ys =>
+        simp only [hx, hr, Option.some.injEq] at h
+        subst h
+        simp [coerceXs, (coerceV_idem T x (.struct s) y hx).1, coerceXs_idem T s rest ys hr]
+end
+
+
 end Pandora.Proofs.C16
